@@ -81,6 +81,11 @@ def run(ctx):
         src_pay, src_names = [], []
         for i in range(nl):
             chars = [chr(97 + j) for j in range(rng.randrange(1, 5))]
+            if rng.random() < 0.35:
+                # character tables of several engines on one page: multi-codepoint symbols, combining marks, an empty-string
+                # symbol, the same symbols in another order / another segmentation (equal when concatenated, different as tables)
+                chars = rng.choice([['e', '\u0301', 'x', ' '], ['e\u0301', 'x', ' '], ['ex', ' ', ''], ['e', 'x', ' '], ['x', 'e', ' '],
+                                    ['', 'e', 'x', ' '], ['e', '', 'x', ' '], ['ch', 'a'], ['c', 'h', 'a'], ['c', 'ha']])
             lg = rnd_matrix(rng, chars)
             co = [None, None] if rng.random() < 0.3 else [rng.randrange(0, 3), rng.randrange(3, 9)]
             miss = rng.random()
@@ -112,7 +117,8 @@ def run(ctx):
         dst = mk_layout(rng, dst_ids, dst_pay)
         ctx.evaluations += 1
         inp = dict(ids=ids, dst_ids=dst_ids, missing_ok=flag, legacy=legacy, via_bytes=via_bytes, weird=weird,
-                   incomplete=[i for i, p in enumerate(src_pay) if None in p])
+                   incomplete=[i for i, p in enumerate(src_pay) if None in p],
+                   charsets=[p[1] for p in src_pay], windows=[p[2] for p in src_pay])
         complete = all(None not in p for p in src_pay)
         outcome = None
         try:
